@@ -85,6 +85,7 @@ class C01(ExprProp):
     """Theorems (Props/C01.lean): on plain numbers `+ - * / ^` of the evaluator are exactly the exact-arithmetic operations for all rationals and integer exponents (the `pow` loop by induction), division by zero including 0^negative is an error; with C06's `C06_query` every well-formed expression under every admissible layout evaluates to its exact denotation. Correspondence: expression trees with big literals and every operator mix, implementation = model = independent exact evaluator."""
     id = "C01"
     module = "Anything.Props.C01"
+    extra_modules = ["Anything.Props.C01Query"]
     trusted = ["num-bigint / num-rational arithmetic (tied to Lean's Rat by sampling)", "Spec.Arith.denote is human input"]
 
     def cases(self, rng, tier):
